@@ -585,3 +585,25 @@ package value
 
 // ---- C11: determinism inventories ----
 //@ maprange NewObject#1 determined same-properties,initial-values-win : the property map of the new object is pinned down key by key; default values are fresh copies (DuplicateValue has no other effect)
+
+// ---- text operations count characters (C14) ----
+// runeCount(s) / runeAt(s, i) are the character view of a text: len([]rune(s)) and []rune(s)[i]
+//@ external utf8.RuneCountInString(s) (n)
+//@   pure
+//@   ensures n == runeCount(s)
+
+//@ func strGetLength
+//@   requires s != nil
+//@   modifies nothing
+//@   ensures [length-counts-characters] r1 == nil && is(r0, *Number) && okElem(r0) && as(r0, *Number).value == float(runeCount(s.value))
+
+// 取样 from i to j: exactly the characters i..j (1-based, inclusive; negative indexes count from the end)
+//@ func strExecSlice
+//@   requires s != nil
+//@   modifies nothing
+//@   ensures [start-before-the-text-is-an-exception] r1 == nil ==> startIdx >= 1
+//@   ensures [end-after-the-text-is-an-exception] r1 == nil ==> endIdx <= runeCount(s.value)
+//@   ensures [empty-when-start-after-end] r1 == nil && startIdx > endIdx ==> is(r0, *String) && runeCount(as(r0, *String).value) == 0
+//@   ensures [characters-i-to-j] r1 == nil && startIdx <= endIdx ==> is(r0, *String) && okElem(r0) && runeCount(as(r0, *String).value) == endIdx - startIdx + 1 &&
+//@             (forall k int :: 0 <= k && k <= endIdx - startIdx ==> runeAt(as(r0, *String).value, k) == runeAt(s.value, startIdx - 1 + k))
+//@   ensures [errors-are-catchable-or-parameter-errors] r1 != nil ==> r0 == nil
